@@ -398,6 +398,8 @@ func (x *Exec) step(st *State, in ssa.Instruction) bool {
 		st.regs[i] = Val{T: r}
 	case *ssa.MakeChan:
 		r := x.newRef(st, "chan")
+		theU.DeclFunc("isext", SBool, SInt)
+		st.add(Not(App("isext", SBool, r))) // made by the module, not handed in from outside
 		st.heap[ghClosed] = Store(st.heapArr(ghClosed, heapSorts[ghClosed]), r, False)
 		st.heap[ghSent] = Store(st.heapArr(ghSent, heapSorts[ghSent]), r, Zero)
 		st.heap[ghRecvd] = Store(st.heapArr(ghRecvd, heapSorts[ghRecvd]), r, Zero)
